@@ -289,7 +289,19 @@ class Engine:
             return
         fn = where or self.cur_fn
         name = f"{fn}/{kind}#{clause}"
-        ob = Obligation(name, kind, list(st.pc) + self.global_axioms, goal, note, props)
+        hyps = list(st.pc) + self.global_axioms
+        kf = getattr(self, "carveouts", {}).get(name)
+        if kf is not None:
+            # known finding: the clause as written must still fail (twin), and outside the carve-out it
+            # must be proved, so any *other* violation of the same clause is still reported
+            twin = Obligation(name + "@known", kind, list(hyps), goal, note, props)
+            twin.trace = list(st.trace)
+            self.obligations.append(twin)
+            s0 = st.copy()
+            s0.frames = [dict(self._entry_env)]
+            s0.heap = self._entry_heap.copy()
+            hyps.append(z3.Not(self.spec_bool(kf["carve_out"], s0, self.cur_frame)))
+        ob = Obligation(name, kind, hyps, goal, note, props)
         ob.trace = list(st.trace)
         self.obligations.append(ob)
 
